@@ -193,6 +193,7 @@ func c02Units(t core.Tier) []c02Unit {
 	}
 	us = append(us, c02Unit{"inv", 0})
 	us = append(us, c02Unit{"del3", 0})
+	us = append(us, c02Unit{"orands", 0})
 	return us
 }
 
@@ -283,6 +284,23 @@ func (c02) RunUnit(t core.Tier, u int, r *core.Reporter) {
 						c02ExploreOpt(r, p, st, true)
 					}
 				}
+			}
+		}
+	case "orands":
+		// (key set & region) | (key set & region): two narrowed key lists side by
+		// side, each the result of its own intersection
+		k, sx := ref.Key, ref.S
+		sets := []*ref.Expr{ref.In(k(), sx("a"), sx("ab"), sx("b")), ref.In(k(), sx("b"), sx("c"), sx("cz")), ref.Bin("=", k(), sx("ab")), ref.Bin("=", sx("c"), k())}
+		regs := []*ref.Expr{ref.Bin(">", k(), sx("a")), ref.Bin(">=", k(), sx("b")), ref.Bin("<=", k(), sx("c")), ref.Bin("^=", k(), sx("a")), ref.Bin("^=", k(), sx("c")), ref.Btw(k(), sx("a"), sx("c"))}
+		for _, s1 := range sets {
+			for _, r1 := range regs {
+				for _, s2 := range sets {
+					for _, r2 := range regs {
+						two(ref.Bin("|", ref.Bin("&", s1.Clone(), r1.Clone()), ref.Bin("&", s2.Clone(), r2.Clone())))
+						two(ref.Bin("or", ref.Bin("and", r1.Clone(), s1.Clone()), ref.Bin("and", s2.Clone(), r2.Clone())))
+					}
+				}
+				two(ref.Bin("|", ref.Bin("&", s1.Clone(), r1.Clone()), ref.Bin("|", ref.Bin("&", sets[1].Clone(), regs[1].Clone()), ref.Btw(k(), sx("ab"), sx("b")))))
 			}
 		}
 	case "del3":
